@@ -785,3 +785,114 @@ class TriggerReplay(Monitor):
                  "after redoing %r: T[%s].%s = %r, the bundle itself left %r" % (
                      ctx.label, r, tcol, got, row[tcol]))
           break
+
+
+# ------------------------------------------------------------------------------------------------
+def _num(v):
+  """Position cell of a dump as a float (norm() spells non-integral floats {'f': repr})."""
+  if isinstance(v, dict) and 'f' in v:
+    return float(v['f'])
+  if isinstance(v, bool) or not isinstance(v, (int, float)):
+    return None
+  return float(v)
+
+
+class PositionOrder(Monitor):
+  """
+  C20 (engine part, order): through PositionColumn.prepare_new_values and the doc actions it
+  emits.  After every successful bundle, in every position column: rows the bundle did not place
+  keep their relative order; every row the bundle placed (added with / moved to a requested
+  position) sits after exactly the untouched rows whose prior position is smaller than the
+  request; placed rows follow the order of their requests (ties: batch order); all finite and
+  distinct.  Requests are read from the bundle itself, prior positions from the pre-state.
+  """
+  name = 'position-order'
+  RECORD = ('AddRecord', 'BulkAddRecord', 'UpdateRecord', 'BulkUpdateRecord', 'RemoveRecord',
+            'BulkRemoveRecord')
+
+  def check(self, ctx):
+    if ctx.exc is not None:
+      return
+    pre, post = ctx.pre_dump, ctx.post_dump
+    bundle = json.loads(ctx.bundle)
+    types = all_col_types(post)
+    pre_by_ref = {r: t['tableId'] for r, t in pre['_grist_Tables']['rows'].items()}
+    n = 0
+    for ref, t in sorted(post['_grist_Tables']['rows'].items()):
+      tid = t['tableId']
+      ptid = pre_by_ref.get(ref)
+      if tid not in post or ptid not in pre:
+        continue
+      acts = [a for a in bundle if a[0] in self.RECORD and a[1] == ptid]
+      simple = len(bundle) == 1 and len(acts) == 1
+      for cid, ty in sorted(types.get(tid, {}).items()):
+        if R.pure_type(ty) not in ('PositionNumber', 'ManualSortPos'):
+          continue
+        if cid not in post[tid]['cols'] or cid not in pre[ptid]['cols']:
+          continue
+        prer = {r: _num(row.get(cid)) for r, row in pre[ptid]['rows'].items()}
+        postr = {r: _num(row.get(cid)) for r, row in post[tid]['rows'].items()}
+        if any(v is None for v in list(prer.values()) + list(postr.values())):
+          continue          # alt-text in a position cell: not a position history
+        placed = []         # [(row id, requested float)] in batch order
+        if simple:
+          a = acts[0]
+          new_rows = sorted(set(postr) - set(prer))
+          if a[0] in ('AddRecord', 'BulkAddRecord'):
+            ids = [a[2]] if a[0] == 'AddRecord' else a[2]
+            vals = a[3].get(cid)
+            reqs = [vals] if a[0] == 'AddRecord' else vals
+            if len(new_rows) != len(ids):
+              continue
+            if reqs is None:
+              if cid != 'manualSort':
+                continue
+              reqs = [None] * len(ids)
+            for r, q in zip(new_rows, reqs):
+              placed.append((r, float('inf') if q is None else _num(q)))
+          elif a[0] in ('UpdateRecord', 'BulkUpdateRecord') and cid in a[3]:
+            ids = [a[2]] if a[0] == 'UpdateRecord' else a[2]
+            reqs = [a[3][cid]] if a[0] == 'UpdateRecord' else a[3][cid]
+            for r, q in zip(ids, reqs):
+              placed.append((r, float('inf') if q is None else _num(q)))
+          if any(q is None for (_r, q) in placed) or len(set(r for r, _q in placed)) != len(placed):
+            continue
+        placed_ids = set(r for r, _q in placed)
+        untouched = [r for r in prer if r in postr and r not in placed_ids]
+        n += 1
+        loc = '%s.%s' % (R.strip_numbers(tid), cid)
+        vals = list(postr.values())
+        if any(v != v or v in (float('inf'), float('-inf')) for v in vals) and simple:
+          bad = [r for r, v in sorted(postr.items()) if v != v or abs(v) == float('inf')]
+          # (a row appended without a position gets one; inf is the column default only)
+          yield (vkey('C20', 'non-finite-position', ctx, extra=loc),
+                 "after %r: %s rows %s hold a non-finite %s" % (ctx.label, tid, bad, cid))
+          continue
+        if len(set(vals)) != len(vals):
+          continue          # Positions monitor reports duplicates
+        before = sorted(untouched, key=lambda r: prer[r])
+        after = sorted(untouched, key=lambda r: postr[r])
+        if before != after:
+          yield (vkey('C20', 'existing-order-changed', ctx, extra=loc),
+                 "after %r: rows of %s the bundle did not place were ordered %s by %s, now %s" % (
+                     ctx.label, tid, before, cid, after))
+          continue
+        for (r, q) in placed:
+          if r not in postr:
+            continue
+          want_before = set(u for u in untouched if prer[u] < q)
+          got_before = set(u for u in untouched if postr[u] < postr[r])
+          if want_before != got_before:
+            yield (vkey('C20', 'misplaced', ctx, extra=loc),
+                   "after %r: %s row %s was placed at %s=%r requested %r: rows before it %s, "
+                   "expected %s" % (ctx.label, tid, r, cid, postr[r], q, sorted(got_before),
+                                    sorted(want_before)))
+            break
+        for i in range(len(placed)):
+          for j in range(i + 1, len(placed)):
+            (ra, qa), (rb, qb) = placed[i], placed[j]
+            if ra in postr and rb in postr and ((qa <= qb) != (postr[ra] < postr[rb])):
+              yield (vkey('C20', 'batch-order', ctx, extra=loc),
+                     "after %r: %s rows %s,%s requested %r,%r got %r,%r" % (
+                         ctx.label, tid, ra, rb, qa, qb, postr[ra], postr[rb]))
+    ctx.extra['position_columns_checked'] = n
